@@ -66,10 +66,35 @@ def register(S):
                                           "same(callee_arg('_drop_connection', 0, 'fd'), item)"]}})
 
     # ---- one client, from authentication to departure: whatever happens, the server forgets the socket ---------------------
-    S.contract(F + "Server._serve_client", params={"self": "obj:Server", "sock": "val", "credentials": "val"}, trusted=True,
-               note="ASSUMED interface: builds the connection for this socket and serves it until it ends (Connection.serve_all: C11); "
-                    "may raise anything; does not touch self.clients",
-               ensures={}, raises={"BaseException": {"props": P17, "modifies": []}}, modifies=[])
+    # the transport objects built around the accepted socket are uninterpreted functions of it (stream_of, channel_of: the
+    # constructors only store their argument); building the connection is the service's business: a ghost event
+    # Connect(channel, config, connection) with any outcome
+    S.external("new_stream", params={"self_arg": "any", "sock": "val"}, result="val", note="SocketStream(sock): stores the socket",
+               outcomes=[{"label": "ok", "assume": ["same(result, stream_of(sock))"]}])
+    S.external("new_channel", params={"self_arg": "any", "stream": "val"}, result="val", note="Channel(stream): stores the stream",
+               outcomes=[{"label": "ok", "assume": ["same(result, channel_of(stream))"]}])
+    S.external("service_connect", params={"self_arg": "any", "channel": "val", "config": "any"}, result="val",
+               note="Service._connect(channel, config): builds and returns the connection (on_connect hooks run; may raise anything)",
+               outcomes=[{"label": "ok", "events": [("Connect", "channel", "config", "result")]},
+                         {"label": "fails", "raise": "BaseException"}])
+    S.contract(F + "Server._handle_connection", params={"self": "obj:Server", "conn": "val"}, dynamic_errors=True,
+               effects={"normal": (0, 2), "raise": (0, 2)},
+               ensures={"serves_it": ("n_ev('GetAttr') == 1 and same(ev_val('GetAttr', 0, 1), conn) and ev_val('GetAttr', 0, 2) == 'serve_all' and "
+                                      "n_calls() == 1 and same(call_fn(0), ev_val('GetAttr', 0, 3)) and call_args(0) == nil() and n_events() == 2", P17)},
+               raises={"BaseException": {"props": P17, "modifies": []}}, modifies=[])
+    SERVED = ("implies(n_callees('_handle_connection') == 1, n_ev('Connect') == 1 and "
+              "same(callee_arg('_handle_connection', 0, 'conn'), ev_val('Connect', 0, 3)) and "
+              "same(ev_val('Connect', 0, 1), channel_of(stream_of(sock))) and "
+              "haskey(ev_obj('Connect', 0, 2), 'credentials') and same(ev_obj('Connect', 0, 2)['credentials'], credentials))")
+    S.contract(F + "Server._serve_client", params={"self": "obj:Server", "sock": "val", "credentials": "val"}, dynamic_errors=True,
+               abstract_calls=dict(LOG, **{"self.service._connect": "service_connect", "Channel": "new_channel", "SocketStream": "new_stream"}),
+               effects={"normal": (0, 9), "raise": (0, 9)},
+               note="builds the connection for exactly this socket (with the credentials the authenticator returned) and serves it until "
+                    "it ends (Connection.serve_all: C11); may raise anything; does not touch self.clients",
+               ensures={"serves_the_connection_built_on_this_socket": (
+                   "n_callees('_handle_connection') == 1 and n_ev('Connect') == 1 and " + SERVED[len("implies(n_callees('_handle_connection') == 1, n_ev('Connect') == 1 and "):-1], P17 + ["C16"])},
+               raises={"BaseException": {"props": P17 + ["C16"], "modifies": [], "state": ["n_callees('_handle_connection') <= 1", SERVED]}},
+               modifies=[])
     S.external("closing_noop", params={"self_arg": "any", "x": "val"}, result="val",
                note="contextlib.closing(x) used as an expression statement: creates a wrapper and discards it - NO effect (the socket is "
                     "closed by the connection's own teardown, or by garbage collection when authentication failed)",
@@ -100,10 +125,24 @@ def register(S):
     S.external("log_format", params={"self_arg": "any", "x": "val"}, result="str", note="a log message built with str.format", outcomes=[{"label": "ok"}])
     # ---- the pool takes a client over: from then on the raw accepted socket is not tracked by the base server any more ----------
     S.contract(F + "ThreadPoolServer._authenticate_and_build_connection", params={"self": "obj:ThreadPoolServer", "sock": "val"},
-               result="val", trusted=True,
-               note="ASSUMED interface: authenticates (the authenticator may hand back ANOTHER socket object) and wraps the socket in a "
-                    "connection: returns the pair (socket, connection) or raises",
-               ensures={"a_pair": ("is_pair(result) and istuple(result)", P17)}, raises={"BaseException": {"props": P17, "modifies": []}}, modifies=[])
+               result="val", dynamic_errors=True, effects={"normal": (0, 9), "raise": (0, 9)},
+               abstract_calls=dict(LOG, **{"self.service._connect": "service_connect", "Channel": "new_channel", "SocketStream": "new_stream",
+                                           "'{}'.format": "log_format"}),
+               note="authenticates (the authenticator may hand back ANOTHER socket object) and wraps the socket in a connection: returns "
+                    "the pair (socket, connection) or raises",
+               ensures={"a_pair": ("is_pair(result) and istuple(result)", P17),
+                        # the connection is built around the socket that is returned with it, and it is the one the service built
+                        "the_connection_of_the_returned_socket": (
+                            "n_ev('Connect') == 1 and same(nth_item(result, 1), ev_val('Connect', 0, 3)) and "
+                            "same(ev_val('Connect', 0, 1), channel_of(stream_of(nth_item(result, 0))))", P17 + ["C16"]),
+                        # without an authenticator the socket is the accepted one; with one, it was asked about exactly this socket
+                        # ... and the socket it handed back (an SSL authenticator wraps it) is the one the connection uses
+                        "authenticated": ("(called_and_returned(self.authenticator, cons(sock, nil())) and same(call_fn(0), self.authenticator) and "
+                                          "(same(nth_item(result, 0), nth_item(call_result(0), 0)) or (n_ops() == 1 and op_name(0) == 'unpack' and "
+                                          "same(op_target(0), call_result(0)) and same(nth_item(result, 0), nth_item(op_result(0), 0))))) "
+                                          "if truthy(self.authenticator) else "
+                                          "same(nth_item(result, 0), sock)", P17 + ["C16"])},
+               raises={"BaseException": {"props": P17, "modifies": []}}, modifies=[])
     S.contract(F + "ThreadPoolServer._add_inactive_connection", params={"self": "obj:ThreadPoolServer", "fd": "val"}, trusted=True,
                note="ASSUMED interface: registers the descriptor with the poll object", ensures={},
                raises={"BaseException": {"props": P17, "modifies": []}}, modifies=[])
